@@ -13,7 +13,7 @@ ORACLE = O.c05
 def body_factory(tier, seed):
     def body(rep, support_ok):
         g = GD.Gen(tier, seed)
-        cases = base.corpus() + g.all_cases()
+        cases = base.corpus() + g.all_cases() + g.stratum_kinds()
         extra = EXTRA(g, tier) if EXTRA else []
         cases = cases + extra
         modes = (False, True) if tier == "thorough" else (False,)
